@@ -215,3 +215,22 @@ def response_header_problems(got: List[Tuple[bytes, bytes]], app_headers: List[T
         if names.count(once) > 1:
             return "duplicated:" + once.decode()
     return None
+
+
+def server_header_config_problems(got: List[Tuple[bytes, bytes]], app_headers: List[Tuple[bytes, bytes]],
+                                  cfg: Dict[str, Any]) -> Optional[str]:
+    """What the documented configuration options say about the server's own headers (the part of `got` behind the
+    application's): include_date_header / include_server_header = False -> no such header; alt_svc_headers = [...] ->
+    exactly these values, in order, as alt-svc headers."""
+    rest = got[len(app_headers):]
+    names = [n for n, _ in rest]
+    if cfg.get("include_date_header", True) is False and b"date" in names:
+        return "date-although-disabled"
+    if cfg.get("include_server_header", True) is False and b"server" in names:
+        return "server-although-disabled"
+    alt = cfg.get("alt_svc_headers")
+    if alt is not None:
+        have = [v for n, v in rest if n == b"alt-svc"]
+        if have != [a.encode() for a in alt]:
+            return "alt-svc-not-as-configured"
+    return None
